@@ -7,7 +7,7 @@ LEVEL = "exploration"
 ENGINE = "progspace"
 TECHNIQUE = "bounded exhaustive exploration: every mixed pack of breaking edges and every state pair of a small versioned-symbol universe, each compared in both argument orders"
 RULE = ("(a) mixed packs of C10 with and without debug info; (b) symbol universe: 2 functions + 1 variable, each in {absent, unversioned, default version @@V1, non-default version @V1} in the old and in the new binary "
-        "(all 4^3 x 4^3 ordered pairs with <= 2 differing symbols in quick, all pairs in thorough), plus alias changes. Oracle: names listed as removed by abidiff A B equal names listed as added by abidiff B A "
+        "(all 4^3 x 4^3 ordered pairs with <= 2 differing symbols in quick, all pairs in thorough), plus alias changes; (c) a function with debug info that exists unversioned, as symq@@V1, as symq@V1 next to symq@@V2, or as symq@@V2 only (all 10 state pairs). Oracle: names listed as removed by abidiff A B equal names listed as added by abidiff B A "
         "(functions, variables, symbols not referenced by debug info) and vice versa; both directions list the same set of changed interfaces. Non-trivial: pairs whose two binaries differ.")
 TEXT = "Both argument orders of every pair, with --no-default-suppression; added interfaces are shown by default."
 NOTE = "Interfaces are identified by the generated names f_<n>/g_<n>/sym<n>; pretty names may differ between directions and are not compared."
@@ -24,6 +24,25 @@ def _sym_lib(state, debug):
     return symlib.build(tuple(state), debug)
 
 
+TWOV = ["none", "plain", "v1-default", "v1-compat+v2-default", "v2-default"]
+
+
+def _twov_lib(state):
+    """libq.so (with debug info) exporting function symq in one of the TWOV states."""
+    src = []
+    if state == "plain":
+        src.append("int symq(int x) { return x; }")
+    if state == "v1-default":
+        src += ["int symq_v1(int x) { return x; }", '__asm__(".symver symq_v1,symq@@V1");']
+    if state == "v1-compat+v2-default":
+        src += ["int symq_v1(int x) { return x; }", '__asm__(".symver symq_v1,symq@V1");', "long symq_v2(long x) { return x; }", '__asm__(".symver symq_v2,symq@@V2");']
+    if state == "v2-default":
+        src += ["long symq_v2(long x) { return x; }", '__asm__(".symver symq_v2,symq@@V2");']
+    src.append("int zz_keep(void) { return 0; }")
+    return cbuild.compile_units([("q.c", "\n".join(src) + "\n", ["-g"])], link_flags=["-Wl,--version-script=q.map", "-Wl,-soname,libq.so"], out_name="libq.so",
+                                extra_files={"q.map": "V1 { local: *_v1; *_v2; };\nV2 { } V1;\n"}, tag="c11q")
+
+
 def stages(ctx):
     import itertools
     packs = pc.mixed_packs(ctx.quick)
@@ -38,22 +57,29 @@ def stages(ctx):
     if ctx.quick:
         pairs = pairs[::4]
     el += [{"sym": [list(a), list(b)], "g": g} for a, b in pairs for g in ((False,) if ctx.quick else (False, True))]
+    el += [{"twov": [a, b]} for i, a in enumerate(TWOV) for b in TWOV[i + 1:]]
     return [("packs+symbol-universe", el)]
 
 
 SECS = [("removed_functions", "added_functions"), ("removed_variables", "added_variables"),
         ("removed_function_symbols", "added_function_symbols"), ("removed_variable_symbols", "added_variable_symbols")]
-RX = r"\b([fg]_\d+|sym[abv](?:@@?V1)?)"
+RX = r"\b([fg]_\d+|sym[abvq](?:@@?V[12])?)"
 
 
 def evaluate(ctx, e):
     if "pack" in e:
         v1, v2, info = pc.build_pair(e["pack"], "breaking", flags=("-g",) if e["g"] else ())
         cls = "pack-" + ("debug" if e["g"] else "nodebug")
+    elif "twov" in e:
+        v1, v2 = _twov_lib(e["twov"][0]), _twov_lib(e["twov"][1])
+        cls = "two-versions-%s->%s" % tuple(e["twov"])
+        e = dict(e, g=True, sym=e["twov"])
     else:
         v1, v2 = _sym_lib(tuple(e["sym"][0]), e["g"]), _sym_lib(tuple(e["sym"][1]), e["g"])
         trans = sorted(set("%s->%s" % (x, y) for x, y in zip(e["sym"][0], e["sym"][1]) if x != y))
         cls = "symbols-" + "+".join(trans) + ("-debug" if e["g"] else "")
+    if "twov" in e:
+        pass
     rc12, o12, e12 = pc.abidiff(ctx, v1, v2)
     rc21, o21, e21 = pc.abidiff(ctx, v2, v1)
     for rc, er in ((rc12, e12), (rc21, e21)):
